@@ -16,6 +16,10 @@ Implementation side (supporting evidence and the failing-input search; tolerance
   ndbatch  n-D integer shifts with DEFAULT pruning on batches whose entries have different sparsity (batched pulses with
            180 / 0 / 90 degrees in one entry and generic angles in the others, batched relaxation): norm == ensemble RMS and
            F0 == ensemble mean per entry after EVERY operator, and equality (norm, F0, every phase state) with scalar re-runs
+  kfloat   float shifts with kvalue in {10, 2.5, 0.1} and kgrid in {1, 0.5, 1e-3} rad/m, each an exact multiple of j*kgrid rad/m
+           (non-merging) written in coordinate units (0.7, 0.35, 1.3 ...), unbatched (shift-merge) and batched (shift-prune),
+           >= 2 shifts with generic-phase pulses in between: norm == ensemble RMS, F0 == ensemble mean after every operator,
+           and equality (norm, F0, every phase state) with the equivalent integer-shift run (1-d and n-d integer paths)
   PD(p, reset=True/False) and RESET are placed MID-sequence (after shifts) in the signal, rms, ndcap, bfloat, ndbatch streams;
            bounds are taken w.r.t. the current density, and the state after PD(reset=True) / RESET must BE the equilibrium
   info     with T2 > 2 T1 the bound can fail (recorded in the evidence, not a violation)
@@ -623,8 +627,39 @@ def gen_ndbatch(rng):
             "opk": "B%dd%d" % (B, dim)}
 
 
-def state_map(sm, b):
-    """phase states of batch entry b as {coordinates: (F+, F-, Z)}, empty states dropped"""
+def gen_kfloat(rng):
+    """float shifts with kvalue != 1 and a grid given in rad/m: every shift is an exact multiple n * u of u = j * kgrid rad/m
+    (non-merging by specification), written in coordinate units as n * u / kvalue (0.7, 0.35, 1.3, 20.0 ...); unbatched
+    (shift-merge) and batched (shift-prune); reference: the same program with the integer shifts n"""
+    kv, kg = rng.choice([10.0, 10.0, 2.5, 0.1]), rng.choice([1.0, 1.0, 0.5, 1e-3])
+    j = rng.choice([1, 2, 3, 7, 7, 13])
+    B = rng.choice([1, 1, 1, 2, 3])
+    dim = rng.choice([1, 1, 2, 3])
+
+    def vec():
+        if rng.random() < 0.5:
+            return [rng.choice([1, 1, -1])] + [0] * (dim - 1)
+        while True:
+            v = [rng.choice([0, 0, 1, 1, -1, 2]) for _ in range(dim)]
+            if any(v):
+                return v
+    fixed = rng.random() < 0.5
+    g0 = [vec() for _ in range(B)]
+    while True:
+        shift = (lambda i: ["S", g0[0] if fixed else vec()]) if B == 1 else (lambda i: ["Sb", g0 if fixed else [vec() for _ in range(B)]])
+        ops = gen_rounds(rng, rng.randint(2, 4), shift, relax_p=0.15, reset_p=0.15)
+        ok = B == 1 or consistent_coincidences([o[1] for o in ops if o[0] == "Sb"], 1)
+        for b in range(B):
+            ok = ok and np.prod([2 * c + 3 for c in reached(batch_entry(ops, b))]) <= 6000
+        if ok:
+            break
+        g0 = [vec() for _ in range(B)]
+    return {"kind": "kfloat", "pd": float(rng.choice([0.5, 1, 1, 2])), "ops": ops, "batch": B, "kvalue": kv, "kgrid": kg, "u": j * kg,
+            "ref1d": dim == 1 and rng.random() < 0.5, "cap": None, "reached": 0, "opk": "%s kv%s kg%s" % ("merge" if B == 1 else "prune", kv, kg)}
+
+
+def state_map(sm, b, scale=1.0):
+    """phase states of batch entry b as {coordinates * scale: (F+, F-, Z)}, empty states dropped"""
     st = np.asarray(sm.states)
     st = np.broadcast_to(st, tuple(sm.shape) + st.shape[-2:]).reshape((-1,) + st.shape[-2:])
     st = st[b if st.shape[0] > 1 else 0]
@@ -635,7 +670,14 @@ def state_map(sm, b):
         co = np.asarray(sm.coords)
         co = co.reshape((-1,) + co.shape[-2:])
         co = co[b if co.shape[0] > 1 else 0]
-    return {tuple(np.round(np.asarray(c, float) * 1e6).astype(np.int64).tolist()): row for c, row in zip(co, st) if np.abs(row).max() > 1e-9}
+    out = {}
+    for c, row in zip(co, st):
+        if np.abs(row).max() > 1e-9:
+            key = [int(x) for x in np.round(np.asarray(c, float) * scale * 1e6)]
+            while key and key[-1] == 0:      # compare across representations of different dimension (1-d / n-d)
+                key.pop()
+            out[tuple(key)] = out.get(tuple(key), 0) + row
+    return out
 
 
 def check_nd(case):
@@ -649,23 +691,35 @@ def check_nd(case):
     opts = {}
     if kind == "bfloat":
         opts["kgrid"] = case["kgrid"]
+    conv = lambda o: o
+    if kind == "kfloat":
+        opts.update(kgrid=case["kgrid"], kvalue=case["kvalue"])
+        f = case["u"] / case["kvalue"]          # integer multiple n of u rad/m -> coordinate units
+        conv = lambda o: ["S", [x * f for x in o[1]]] if o[0] == "S" else (["Sb", [[x * f for x in v] for v in o[1]]] if o[0] == "Sb" else o)
     if cap is not None and case["cap_where"] == "max_nstate":
         opts["max_nstate"] = cap
     nmax = cap if (cap is not None and case["cap_where"] == "nmax") else None
     B = case.get("batch", 1)
     truncating = cap is not None and cap < case["reached"]
     ens = [ensemble_nd(batch_entry(ops, b), pd, case.get("unit", 1), steps=True) for b in range(B)]
-    scalar = [epg.StateMatrix(density=pd, **opts) for b in range(B)] if kind == "ndbatch" else None
+    scalar = None
+    if kind == "ndbatch":      # scalar re-run of every batch entry
+        scalar = [epg.StateMatrix(density=pd, **opts) for b in range(B)]
+    elif kind == "kfloat":     # the equivalent integer-shift run of every batch entry (no kvalue, no grid)
+        scalar = [epg.StateMatrix(density=pd) for b in range(B)]
     sm = epg.StateMatrix(density=pd, **opts)
     dens = bound = pd
     for i, o in enumerate(ops):
-        sm = nd_build_op(o, nmax)(sm)
+        sm = nd_build_op(conv(o), nmax)(sm)
         if o[0] == "PD":
             dens = o[1]
             bound = dens if o[2] else max(bound, dens)
         elif o[0] == "RESET":
             bound = dens
         where = "after step %d (%s) of %s" % (i, o, ops[:i + 1])
+        if kind == "kfloat":
+            where += " [StateMatrix(kvalue=%s, kgrid=%s), shifts are the listed integers * %s / %s in coordinate units]" % (
+                case["kvalue"], case["kgrid"], case["u"], case["kvalue"])
         why = symmetry_violation(sm)
         if why:
             return "%s %s" % (why, where)
@@ -688,13 +742,16 @@ def check_nd(case):
                 return "F0 = %s but the ensemble mean of Mx + i My is %s (batch entry %d) %s" % (f0[b], mean, b, where)
         if scalar is not None:
             for b in range(B):
-                scalar[b] = nd_build_op(batch_entry([o], b)[0], nmax)(scalar[b])
+                ob = batch_entry([o], b)[0]
+                if case.get("ref1d") and ob[0] == "S":
+                    ob = ["Sint", ob[1][0]]          # scalar int on a fresh state matrix: the 1-d integer path
+                scalar[b] = nd_build_op(ob, nmax)(scalar[b])
                 n1, g0 = float(np.ravel(scalar[b].norm)[0]), complex(np.ravel(np.asarray(scalar[b].states)[..., scalar[b].nstate, 0])[0])
                 if not close(norm[b], n1) or abs(f0[b] - g0) > 1e-9 * (1 + bound):
-                    return "batch entry %d: norm %.12g / F0 %s differ from the scalar re-run (%.12g / %s) %s" % (b, norm[b], f0[b], n1, g0, where)
+                    return "batch entry %d: norm %.12g / F0 %s differ from the scalar / integer-shift re-run (%.12g / %s) %s" % (b, norm[b], f0[b], n1, g0, where)
     if scalar is not None:
         for b in range(B):
-            m1, m2 = state_map(sm, b), state_map(scalar[b], 0)
+            m1, m2 = state_map(sm, b, case["kvalue"] / case["u"] if kind == "kfloat" else 1.0), state_map(scalar[b], 0)
             for k in set(m1) | set(m2):
                 d = np.abs(m1.get(k, np.zeros(3)) - m2.get(k, np.zeros(3))).max()
                 if d > 1e-9 * (1 + bound):
@@ -703,7 +760,7 @@ def check_nd(case):
 
 
 CHECKS = {"iso": check_iso, "contract": check_contract, "rms": check_rms, "signal": lambda c: check_signal(c)[0],
-          "normcorr": lambda c: check_normcorr(c), "ndcap": check_nd, "bfloat": check_nd, "ndbatch": check_nd}
+          "normcorr": lambda c: check_normcorr(c), "ndcap": check_nd, "bfloat": check_nd, "ndbatch": check_nd, "kfloat": check_nd}
 
 
 def run_stream(ctx, name, gen, n):
@@ -827,6 +884,7 @@ def run(ctx):
     nb += run_stream(ctx, "ndcap", gen_ndcap, 140 * n)
     nb += run_stream(ctx, "bfloat", gen_bfloat, 40 * n)
     nb += run_stream(ctx, "ndbatch", gen_ndbatch, 100 * n)
+    nb += run_stream(ctx, "kfloat", gen_kfloat, 80 * n)
     nb += norm_correspondence(ctx, 60 if quick else 2000)
     try:
         demo_T2_gt_2T1(ctx)
